@@ -639,3 +639,82 @@ def rule_iter_snapshot(ctx: Ctx, rel: str, cname: str) -> None:
                         ctx.ok("iter.snapshot", m, loop, what=f"{cname}.{k}: removes `{a.id}` while walking `{short(it, 40)}` (a snapshot / another container)")
     if removing == 0:
         raise AnalysisError(f"{cname}: no loop removes the element it iterates over (the remove_* loops moved?)")
+
+
+# ------------------------------------------------------------------------------------------------------- view.stale
+
+_VIEW_FUNCS = {"np.diag", "np.diagonal", "np.transpose", "np.ravel", "np.reshape", "np.swapaxes", "np.squeeze", "np.atleast_2d", "np.asarray"}
+_VIEW_METHODS = {"diagonal", "reshape", "ravel", "transpose", "view", "squeeze", "swapaxes"}
+_INPLACE_FUNCS = {"np.fill_diagonal": 0, "np.put": 0, "np.place": 0, "np.copyto": 0, "np.putmask": 0}
+
+
+def _view_base(e: ast.AST) -> Optional[str]:
+    """name of the array that `e` is a numpy *view* of (None if e is a fresh object or not recognised)"""
+    if isinstance(e, ast.Call):
+        cn = call_name(e) or ""
+        if cn in _VIEW_FUNCS and e.args:
+            return _view_base(e.args[0]) or (e.args[0].id if isinstance(e.args[0], ast.Name) else None)
+        if isinstance(e.func, ast.Attribute) and e.func.attr in _VIEW_METHODS:
+            return _view_base(e.func.value) or (e.func.value.id if isinstance(e.func.value, ast.Name) else None)
+        return None
+    if isinstance(e, ast.Attribute) and e.attr == "T":
+        return _view_base(e.value) or (e.value.id if isinstance(e.value, ast.Name) else None)
+    if isinstance(e, ast.Subscript) and isinstance(e.value, ast.Name):
+        sl = e.slice
+        parts = sl.elts if isinstance(sl, ast.Tuple) else [sl]
+        # a Name index may be a list (fancy indexing copies), so only slices and integer literals count as basic indexing
+        if any(isinstance(p, ast.Slice) for p in parts) and all(isinstance(p, ast.Slice) or (isinstance(p, ast.Constant) and isinstance(p.value, int)) for p in parts):
+            return e.value.id
+    return None
+
+
+def rule_view_stale(ctx: Ctx, rel: str, quals: Optional[List[str]] = None) -> None:
+    """view.stale: a name bound to a numpy view of an array (np.diag(A), A.T, a basic slice, reshape, ravel ...) is not read after
+    A has been modified in place (A[i, j] = ..., np.fill_diagonal(A, ...), A += ...): the view shows the modified data, not the
+    values it had when the name was bound."""
+    repo = ctx.repo
+    m = repo.module(rel)
+    fns = [f for f in ast.walk(m.tree) if isinstance(f, ast.FunctionDef)] if quals is None else [repo.anchor(rel, q) for q in quals]
+    views = 0
+    for fn in fns:
+        binds = [(n.targets[0].id, _view_base(n.value), n) for n in ast.walk(fn) if isinstance(n, ast.Assign) and len(n.targets) == 1
+                 and isinstance(n.targets[0], ast.Name) and _view_base(n.value)]
+        for v, base, bnode in binds:
+            if v == base:
+                continue
+            views += 1
+            ctx.touch(m, fn)
+            muts = []
+            for n in ast.walk(fn):
+                if n.__dict__.get("lineno", 0) <= bnode.lineno:
+                    continue
+                if isinstance(n, (ast.Assign, ast.AugAssign)):
+                    tg = n.targets if isinstance(n, ast.Assign) else [n.target]
+                    for t in tg:
+                        if isinstance(t, ast.Subscript) and isinstance(t.value, ast.Name) and t.value.id == base:
+                            muts.append(n)
+                        if isinstance(n, ast.AugAssign) and isinstance(t, ast.Name) and t.id == base:
+                            muts.append(n)
+                if isinstance(n, ast.Call) and (call_name(n) or "") in _INPLACE_FUNCS and n.args and isinstance(n.args[0], ast.Name) and n.args[0].id == base:
+                    muts.append(n)
+            # re-binding of the view name or of the base ends the aliasing
+            rebind = [n.lineno for n in ast.walk(fn) if isinstance(n, ast.Assign) and n.lineno > bnode.lineno
+                      and any(isinstance(t, ast.Name) and t.id in (v, base) for t in n.targets)]
+            horizon = min(rebind) if rebind else 10 ** 9
+            muts = [x for x in muts if x.lineno < horizon]
+            bad = None
+            if muts:
+                first = min(x.lineno for x in muts)
+                for n in ast.walk(fn):
+                    if isinstance(n, ast.Name) and n.id == v and isinstance(n.ctx, ast.Load) and first < n.lineno <= horizon:
+                        bad = n
+                        break
+            if bad is not None:
+                mut = min(muts, key=lambda x: x.lineno)
+                ctx.fail("view.stale", m, bad,
+                         f"{fn.name}: `{v}` is a numpy view of `{base}` (`{short(bnode.value, 50)}`), `{base}` is then modified in place by "
+                         f"`{short(mut, 50)}`, and `{v}` is read afterwards (line {bad.lineno}): it shows the modified data, not the values at binding time",
+                         func=fn.name, construct=f"{fn.name}: view {v} of {base} read after in-place modification")
+            else:
+                ctx.ok("view.stale", m, bnode, what=f"{fn.name}: view `{v}` of `{base}` not read after `{base}` is modified")
+    ctx.note(f"view.stale: {views} view bindings analysed in {rel}")
